@@ -151,6 +151,8 @@ pub fn syntactic_family(tier: Tier) -> Vec<Item> {
                 name: "proc_p".into(),
                 params: vec![RParam { is_ref: true, name: "ref_x".into(), ty: tname("type_t") }, RParam { is_ref: false, name: "var_y".into(), ty: tname("int") }],
                 vars: vec![
+                    // the base type of an anonymous array type, named like a later variable
+                    v("wide", arr(2, tname("type_t"))),
                     v("array_a", tname("int")),
                     v("if_count", tname("int")),
                     v("else1", tname("int")),
@@ -161,6 +163,7 @@ pub fn syntactic_family(tier: Tier) -> Vec<Item> {
                     v("typeB", tname("of_")),
                     // a variable named like its own type (its type expression does not see it yet)
                     v("of_", tname("of_")),
+                    v("type_t", tname("int")),
                 ],
                 body: vec![
                     RStmt::Assign(vname("if_count"), bin(Op::Add, evar("var_y"), evar("else1"))),
@@ -198,7 +201,18 @@ pub fn syntactic_family(tier: Tier) -> Vec<Item> {
             ],
         });
         decls.push(RDecl::Proc { name: "none".into(), params: vec![], vars: vec![], body: vec![] });
-        decls.push(main_with(vec![RStmt::Call(
+        // calls in the branches of nested and dangling if/else
+        let none = || RStmt::Call("none".into(), vec![]);
+        let c = |v: &str| bin(Op::Lst, evar(v), eint(1));
+        let four = || RStmt::Call("four".into(), vec![evar("i"), evar("j"), evar("a"), evar("m")]);
+        let nested = RStmt::If(
+            c("i"),
+            Arc::new(RStmt::Block(vec![RStmt::If(c("j"), Arc::new(none()), Some(Arc::new(four())))])),
+            Some(Arc::new(RStmt::If(c("j"), Arc::new(four()), Some(Arc::new(none()))))),
+        );
+        let dangling = RStmt::If(c("i"), Arc::new(RStmt::If(c("j"), Arc::new(none()), Some(Arc::new(four())))), None);
+        let after = RStmt::While(c("i"), Arc::new(RStmt::If(c("j"), Arc::new(RStmt::Empty), Some(Arc::new(four())))));
+        decls.push(main_with(vec![nested, dangling, after, RStmt::Call(
             "five".into(),
             vec![RExpr::Int(Lit::Chr(',')), bin(Op::Mul, RExpr::Paren(Arc::new(bin(Op::Add, evar("i"), eint(1)))), eint(2)), RExpr::Neg(Arc::new(evar("j"))), evar("m"), evar("i")],
         )]));
@@ -298,6 +312,9 @@ fn scenario_decls(shadow: bool, alias: bool) -> Vec<RDecl> {
         r_vars.push(RVarDecl { name: "time".into(), ty: tname("int") });
         r_body.push(RStmt::Assign(vname("time"), bin(Op::Add, evar("time"), eint(1))));
         r_vars.push(RVarDecl { name: "q".into(), ty: tname("int") });
+        // a local named like the main procedure
+        r_vars.push(RVarDecl { name: "main".into(), ty: tname("int") });
+        r_body.push(RStmt::Assign(vname("main"), bin(Op::Add, evar("main"), evar("i"))));
         r_vars.push(RVarDecl { name: "v".into(), ty: arr(2, tname("int")) });
         // a local named like the predefined type (declared last: it hides `int` from then on)
         r_vars.push(RVarDecl { name: "int".into(), ty: tname("A") });
